@@ -80,10 +80,19 @@ def _falsy(i):
     return None if i % 2 == 0 else ""
 
 
+def _fresh(v):
+    """An object equal to v but not the same object: names and addresses reach a registry from decoded messages
+    and parsed configuration, so a key given to an operation is never the very object stored earlier."""
+    if isinstance(v, str):
+        w = v.encode("utf-8").decode("utf-8")
+        return w
+    return list(v) if isinstance(v, list) else v
+
+
 def _construct(case):
     """Namer(entries=...) in the form the case asks for; the k-th falsy member alternates None and ''."""
     from hio.help.naming import Namer
-    ents = [(NAMES[a] if a else _falsy(k), ADDRS[b] if b else _falsy(k + 1)) for k, (a, b) in enumerate(case.get("entries", []))]
+    ents = [(_fresh(NAMES[a]) if a else _falsy(k), _fresh(ADDRS[b]) if b else _falsy(k + 1)) for k, (a, b) in enumerate(case.get("entries", []))]
     form = case.get("form", "list")
     if not ents and form != "items":
         return Namer() if form == "list" else Namer(entries=tuple(ents) if form == "tuple" else iter(ents))
@@ -116,13 +125,13 @@ def run_impl(case):
         # first operand is a name (add/rem/chga) or an address (chgn)
         try:
             if kind == "add":
-                r = nm.addNameAddr(name=NAMES[a] if a else _falsy(i), addr=ADDRS[b] if b else _falsy(i + 1))
+                r = nm.addNameAddr(name=_fresh(NAMES[a]) if a else _falsy(i), addr=_fresh(ADDRS[b]) if b else _falsy(i + 1))
             elif kind == "rem":
-                r = nm.remNameAddr(name=NAMES[a] if a else _falsy(i), addr=ADDRS[b] if b else _falsy(i + 1))
+                r = nm.remNameAddr(name=_fresh(NAMES[a]) if a else _falsy(i), addr=_fresh(ADDRS[b]) if b else _falsy(i + 1))
             elif kind == "chga":
-                r = nm.changeAddrAtName(name=NAMES[a] if a else _falsy(i), addr=ADDRS[b] if b else _falsy(i + 1))
+                r = nm.changeAddrAtName(name=_fresh(NAMES[a]) if a else _falsy(i), addr=_fresh(ADDRS[b]) if b else _falsy(i + 1))
             elif kind == "chgn":
-                r = nm.changeNameAtAddr(addr=ADDRS[a] if a else _falsy(i), name=NAMES[b] if b else _falsy(i + 1))
+                r = nm.changeNameAtAddr(addr=_fresh(ADDRS[a]) if a else _falsy(i), name=_fresh(NAMES[b]) if b else _falsy(i + 1))
             else:
                 nm.clearAllNameAddr(); r = False
             results.append(["ok", bool(r)])
@@ -174,13 +183,13 @@ def _oracle_unchanged(case):
         before = (nm.addrByName, nm.nameByAddr)
         try:
             if kind == "add":
-                r = nm.addNameAddr(name=NAMES[a] if a else _falsy(i), addr=ADDRS[b] if b else _falsy(i + 1))
+                r = nm.addNameAddr(name=_fresh(NAMES[a]) if a else _falsy(i), addr=_fresh(ADDRS[b]) if b else _falsy(i + 1))
             elif kind == "rem":
-                r = nm.remNameAddr(name=NAMES[a] if a else _falsy(i), addr=ADDRS[b] if b else _falsy(i + 1))
+                r = nm.remNameAddr(name=_fresh(NAMES[a]) if a else _falsy(i), addr=_fresh(ADDRS[b]) if b else _falsy(i + 1))
             elif kind == "chga":
-                r = nm.changeAddrAtName(name=NAMES[a] if a else _falsy(i), addr=ADDRS[b] if b else _falsy(i + 1))
+                r = nm.changeAddrAtName(name=_fresh(NAMES[a]) if a else _falsy(i), addr=_fresh(ADDRS[b]) if b else _falsy(i + 1))
             elif kind == "chgn":
-                r = nm.changeNameAtAddr(addr=ADDRS[a] if a else _falsy(i), name=NAMES[b] if b else _falsy(i + 1))
+                r = nm.changeNameAtAddr(addr=_fresh(ADDRS[a]) if a else _falsy(i), name=_fresh(NAMES[b]) if b else _falsy(i + 1))
             else:
                 nm.clearAllNameAddr(); continue
         except Exception:
